@@ -19,7 +19,7 @@ RULE = (
     "programs generated for one mapping (low 00-6F/80-CF, low2 80-FF, high 40-7D/C0-FF; addresses drawn from that mapping) that use 0-3 -D names in data, sized operands and conditions, run through every "
     "(format in {ips,sfc}) x (copier header off/on) point and every entry point (assemble, assemble_as_patch, in-process cli_main; real subprocess for 1 program in 10).  Oracle: reference = in-memory API with the same rom type "
     "and the defines as integer symbols, required to equal vlib/model/refasm.py under the textbook bus; IPS output parsed by vlib/model/ips.py == reference blocks (+0x200 with the copier header); SFC bytes == reference image on zeros; "
-    "exit status / return value 0; the exported symbol file lists each label defined outside loop iterations exactly once as bank:offset name.  Non-trivial = a lattice point other than (ips, low, off, no defines) on a program with >=2 blocks; "
+    "exit status / return value 0; the exported symbol file lists each label defined outside loop iterations exactly once as bank:offset name and no entry under a name that is not a label of the program.  Non-trivial = a lattice point other than (ips, low, off, no defines) on a program with >=2 blocks; "
     "distinct = distinct (program, lattice point, entry) tuples."
 )
 LEVEL_TEXT = "Differential exploration over the full option lattice and all entry points; two failures agreeing is not agreement (the reference must match the independent model first)."
